@@ -20,8 +20,8 @@ Armed for the two conversion points on the read path: EventBuilder::add_payload_
 (h) bit addressing: every null / value bitmap access in the column layer has the shape `bytes[a / 8] (&|) (1 << (b % 8))`; the byte index and the bit index must be taken from the same row index
 (a and b are copies of one variable) - all writers and readers in engine::core::{column, write} are compared; `bytes[(i - start) / 8] & (1 << (i % 8))` reads another row's bit.
 """
-FLOOR = 9
-REQUIRED = ["C07.a1", "C07.a2", "C07.b", "C07.c", "C07.d", "C07.e", "C07.f", "C07.g", "C07.h"]
+FLOOR = 10
+REQUIRED = ["C07.a1", "C07.a2", "C07.b", "C07.c", "C07.d", "C07.e", "C07.f", "C07.g", "C07.h", "C07.i"]
 
 NUM = {"I64", "U64", "F64", "Bool"}
 
@@ -446,3 +446,66 @@ def run(ctx):
             raise AnchorMissing("bitmap accesses of the shape bytes[a/8] op (1 << (b%%8)) (found %d, counted 15)" % n)
         return bad
     ctx.run("C07.h", "K11 SIB", "null / value bitmap accesses in engine::core::{column, write}", "byte index and bit index of a bitmap access come from the same row index", h_)
+
+    def i_(inst):
+        """The projection is computed more than once per query (for the schema frame and again inside the memtable source); values
+        sit under their own column names only if every computation yields the same order. ProjectionColumns keeps insertion order,
+        so nothing it is fed may come out of a hash collection (whose iteration order differs per instance) unless it is sorted."""
+        bad = []
+        n = 0
+        HASH_IT = re.compile(r"hash::(set|map)::|HashSet|HashMap")
+        for k in sorted(F.keys()):
+            if k.startswith("bin:") or not re.search(r"engine::core::read::projection::(strategies|context)::", k):
+                continue
+            b = F.fn_exact(k)
+            sorts = [c for c in b.calls if not c.cleanup and re.search(r"slice::sort\w*$", c.nname)]
+            for c in b.calls:
+                if c.cleanup or not re.search(r"ProjectionColumns::(add_many|union)$", c.nname):
+                    continue
+                n += 1
+                if c.ga and HASH_IT.search(str(c.ga)):
+                    bad.append(("projection-order-from-hash:%s" % k.split("::{closure")[0].split("::")[-1], "%s feeds ProjectionColumns from a hash collection (%s): the column order differs between the two computations of one query and values come back under the wrong column names" % (
+                        k.split("::{closure")[0].split("::")[-1], str(c.ga).split("::<", 1)[-1][:60]), sp(b, c.bb)))
+                    continue
+                # a Vec collected from a hash iteration without a sort in between
+                for a_ in c.args[1:]:
+                    src = a_
+                    chain = []
+                    for _ in range(8):
+                        L = [l for l in b.origins(src) if l[0] == "call"]
+                        if not L:
+                            break
+                        cc = b.call_at(L[0][2])
+                        chain.append(cc)
+                        if not cc.args:
+                            break
+                        src = cc.args[0]
+                    if any(HASH_IT.search(x.name) and re.search(r"(into_iter|iter|drain|keys|values|into_keys|into_values)$", x.nname) for x in chain):
+                        vl = b._origin_locals(a_)
+                        if not any((b._origin_locals(s_.args[0]) & vl) and b.dominates_edge((s_.bb, s_.to), c.bb) for s_ in sorts):
+                            bad.append(("projection-order-from-hash:%s" % k.split("::{closure")[0].split("::")[-1], "%s feeds ProjectionColumns a list collected from a hash iteration without sorting it" % k.split("::{closure")[0].split("::")[-1], sp(b, c.bb)))
+        # payload_fields: every list it returns that was collected from a hash set is sorted first
+        pf = F.fn("ProjectionContext::payload_fields")
+        srt = [c for c in pf.calls if not c.cleanup and re.search(r"slice::sort\w*$", c.nname)]
+        col = [c for c in pf.calls if not c.cleanup and c.nname.endswith("Iterator::collect")]
+        inst.sites.append("%d add_many/union call(s) in projection::strategies; payload_fields: %d collect, %d sort" % (n, len(col), len(srt)))
+        if n < 4:
+            raise AnchorMissing("ProjectionColumns::add_many calls in projection::strategies (%d, confirmed 6)" % n)
+        for c in col:
+            chain = []
+            src = c.args[0]
+            for _ in range(8):
+                L = [l for l in pf.origins(src) if l[0] == "call"]
+                if not L:
+                    break
+                cc = pf.call_at(L[0][2])
+                chain.append(cc)
+                if not cc.args:
+                    break
+                src = cc.args[0]
+            if any(HASH_IT.search(x.name) for x in chain):
+                vl = {l for l, _ in pf.flow_forward(c.dest)}
+                if not any(pf._origin_locals(s_.args[0]) & vl for s_ in srt):
+                    bad.append(("payload-fields-unsorted", "ProjectionContext::payload_fields returns the fields of a hash set in iteration order", sp(pf, c.bb)))
+        return bad
+    ctx.run("C07.i", "K7 PROV", "engine::core::read::projection::{strategies,context}", "the column order of a projection never comes from a hash collection", i_)
